@@ -87,6 +87,9 @@ class TypeRegistry:
         # external types the generator's tables branch on
         self.enums.setdefault("Member", [("Named", [("named", "Ident")], ["0"], "tuple"), ("Unnamed", [("named", "Index")], ["0"], "tuple")])
         self.structs.setdefault("Index", {"index": ("int",), "span": ("named", "Span")})
+        self.enums.setdefault("TokenTree", [("Group", [("named", "Group")], ["0"], "tuple"), ("Ident", [("named", "Ident")], ["0"], "tuple"),
+                                            ("Punct", [("named", "Punct")], ["0"], "tuple"), ("Literal", [("named", "Literal")], ["0"], "tuple")])
+        self.enums.setdefault("Delimiter", [("Parenthesis", [], [], "unit"), ("Brace", [], [], "unit"), ("Bracket", [], [], "unit"), ("None", [], [], "unit")])
 
     def enum_variants(self, name):
         return self.enums.get(name)
@@ -425,7 +428,7 @@ class Evaluator:
                 if "init" in s:
                     v = self.eval(s["init"], env)
                 else:
-                    v = None
+                    v = SymObj("uninit", ("named", "?"))
                 if not self.bind(s["pat"], v, env):
                     if "else" in s:
                         self.eval(s["else"], env)
@@ -511,6 +514,10 @@ class Evaluator:
                     if not self.bind(f["pat"], self.field(v, f["member"]), env):
                         return False
                 return True
+            if isinstance(v, SymObj) and not self._is_enumish(v):
+                segs_ = p["path"].split("::")
+                if len(segs_) >= 2 and self.types.enum_variants(segs_[-2]):
+                    v = SymObj(v.path, ("named", segs_[-2]))
             t = self.tag_of(v)
             if isinstance(t, StructV) and k == "PStruct":
                 return self.bind(p, t, env)
@@ -861,6 +868,8 @@ class Evaluator:
                 return False
             if n in self.fn_index:
                 return FnRef(n)
+            if n[:1].isupper():
+                return SymObj(n, ("named", "?"))
             raise Unsupported("unbound " + n)
         # Enum::Variant
         en, vn = segs[-2], segs[-1]
@@ -1034,10 +1043,10 @@ class Evaluator:
     def resolve_str(self, v, pats):
         """A symbolic string matched against string literals becomes one finite atom."""
         if isinstance(v, SymObj) and v.ty[0] in ("str", "named") and not self._is_enumish(v):
-            if isinstance(self.decisions.get(v.path), str):
-                return self.decisions[v.path]
             lits = sorted({x for p in pats for x in pat_strs(p)})
             if lits:
+                if isinstance(self.decisions.get(v.path), str):
+                    return self.decisions[v.path]
                 return self.decide(v.path, lits + [OTHER_STR])
         return v
 
@@ -1153,6 +1162,16 @@ class Evaluator:
             if ok and "guard" in e:
                 ok = self.truth(self.eval(e["guard"], env2))
             return ok
+        if n == "Token":
+            return SymObj("Token![" + e["src"].replace(" ", "") + "]", ("named", "Token"))
+        if n in ("braced", "parenthesized", "bracketed"):
+            toks = e["tokens"]
+            if len(toks) >= 3 and toks[0]["t"] == "ident" and toks[1]["t"] == "ident" and toks[1]["v"] == "in":
+                src_name = toks[2]["v"] if toks[2]["t"] == "ident" else "?"
+                src_v = env.get(src_name)
+                env[toks[0]["v"]] = SymObj(f"{n}({vkey(src_v) if src_v is not None else src_name})", ("named", "ParseBuffer"))
+                self.effects.append((n, src_name))
+                return UNIT
         if n == "format":
             args = e.get("args") or []
             vals = [self.eval(a, env) for a in args[1:]]
